@@ -105,6 +105,7 @@ type cwWorld struct {
 	plan        *cwPlan                   // a contract deployment onto an address that was funded beforehand
 	hunt        bool                      // time spends of small unlocked outputs to the block that trims them
 	busy        bool                      // more region blocks, and every one of them delivers a burst of lockup coinbases
+	adversarialQi bool                    // some Qi transactions handed to the pool are invalid in ways only block assembly can notice
 	convertQi   bool                      // some Qi spends are Qi -> Quai conversions
 	forceRegion int                       // when it counts down to zero the block being built is of region order
 	qiBoost     int                       // extra Qi spends per round
@@ -835,6 +836,13 @@ func (w *cwWorld) qiSpend(height uint64) *types.Transaction {
 		} else {
 			nin--
 		}
+	}
+	if w.adversarialQi && rc.Chance(12) && len(forced) == 0 {
+		// an adversarial transaction for the pool: the same outpoint named twice (signed by its key twice).  The pool's
+		// checks add the value up twice; the worker must still never put it into a block of its own.
+		picked = []cand{cands[0], cands[0]}
+		nin = 2
+		w.count("tx:qi-same-outpoint-twice")
 	}
 	var ins types.TxIns
 	var privs []*btcec.PrivateKey
